@@ -108,6 +108,10 @@ theorem cosW_range (v1 v2 w : List ℝ) (h1 : v1.length = w.length) (h2 : v2.len
   rw [div_pow, mul_pow, Real.sq_sqrt hA.le, Real.sq_sqrt hB.le, div_le_one (mul_pos hA hB)]
   exact cauchy_schwarz_weighted v1 v2 w hw
 
+example : ∃ c, cosW ([1, 2] : List ℝ) [2, 1] [1, 3] = .ok c ∧ c ^ 2 ≤ 1 :=
+  cosW_range _ _ _ rfl rfl (by intro c hc; simp at hc; rcases hc with rfl | rfl <;> norm_num)
+    (by norm_num [zipWith3]) (by norm_num [zipWith3])
+
 /-- the weighted routines of this file raise DimensionException when a sample does not match the
 weights -/
 theorem weighted_mismatch_raises (v1 v2 w : List ℝ) :
@@ -208,6 +212,11 @@ theorem breaks_spec (v : List ℝ) (n : Nat) :
     simp [bind, Except.bind, pure, Except.pure]
   · intro hv; subst hv; rfl
 
+example : breaks ([3, 1, 2] : List ℝ) 2 = .ok [1, 2, 3] := by
+  have hr : VecTools.range ([3, 1, 2] : List ℝ) = .ok (1, 3) := by norm_num [VecTools.range]
+  rw [(breaks_spec _ 2).1 1 3 hr]
+  norm_num [List.range_succ]
+
 /-- Scott's rule: `⌈(max - min) / (3.5 · sd · n^(-1/3))⌉` -/
 theorem nclassScott_spec (v : List ℝ) (lo hi s : ℝ) (hr : VecTools.range v = .ok (lo, hi))
     (hs : sd v true = .ok s) :
@@ -260,6 +269,9 @@ theorem extract_spec {β : Type} (v : List β) (pos : List Nat) :
       unfold at?
       rw [List.getElem?_eq_none hle]
 
+example : extract [10, 20, 30] [2, 0, 2] = .ok [30, 10, 30] := rfl
+example : extract [10, 20, 30] [1, 3] = .error .ub := rfl
+
 section Sets
 variable {β : Type} [LinearOrder β]
 
@@ -269,6 +281,8 @@ theorem countValues_spec (v : List β) :
     ((countValues dlt v).map (·.1)).Pairwise (· < ·) ∧
     ∀ k c, (k, c) ∈ countValues dlt v ↔ k ∈ v ∧ c = v.count k :=
   ⟨(countValues_inv v).1, countValues_mem v⟩
+
+example : countValues (dlt (β := Nat)) [3, 1, 3, 2, 3] = [(1, 1), (2, 1), (3, 3)] := by decide
 
 /-! ## union / intersection of a list of vectors -/
 
@@ -300,6 +314,8 @@ theorem union_shape (a b : List β) :
   · unfold IsUnionList; rw [vectorUnion_eq]; simp [listEq_refl]
 
 example : vectorUnion (deq (β := Nat)) [1, 1, 2] [2, 3] = [1, 2, 3] := by decide
+
+example : vectorUnionList (deq (β := Nat)) [[2, 1, 2], [], [3, 1], [4]] = [2, 1, 3, 4] := by decide
 
 /-- `extend(v1, v2)` keeps `v1` as it is and pushes the elements of `v2` that are not yet present:
 `v1` followed by new, pairwise distinct elements (`IsUnion`) -/
@@ -355,6 +371,9 @@ omit [LinearOrder β] in
 /-- `rep(v, n)` is `n` copies of `v`, for every `n` (0 and 1 included) and every `v` (the empty
 one included): no out-of-range read -/
 theorem rep_spec (v : List β) (n : Nat) : rep v n = .ok (List.replicate n v).flatten := rep_eq v n
+
+example : rep [1, 2] 3 = .ok [1, 2, 1, 2, 1, 2] := by decide
+example : rep ([] : List Nat) 4 = .ok [] := by decide
 
 /-! ## the overloads that sort their arguments in place -/
 
